@@ -988,7 +988,7 @@ func (r *runner) confirmAndMinimise(c *candidate, tier string) (string, *replayF
 		sh.budget, sh.deadline = 6000, time.Now().Add(180*time.Second)
 	}
 	if c.v.Oracle == "liveness" {
-		sh.budget = 8 // every replay of a hang costs a full watchdog period
+		sh.budget = 3 // every replay of a hang costs a full watchdog period
 	} else if c.tape == nil {
 		// the worker dies on every failing candidate and must be restarted
 		sh.budget, sh.deadline = 160, time.Now().Add(45*time.Second)
